@@ -747,5 +747,8 @@ pub fn make_tls_client(sc: &J) -> TlsClient {
         handshaken: false,
         next_plain: sc["client"]["tls_from"].as_u64().unwrap_or(1) as usize,
         failed: None,
+        marks: Vec::new(),
+        produced: 0,
+        handed: 0,
     }
 }
